@@ -287,7 +287,9 @@ func newRows(result *updog.Result, groupBy []string) *rows {
 		cols: append(groupBy, "count"),
 	}
 
-	if len(result.Groups) > 0 {
+	// with a group-by clause there is one row per group (none if nothing
+	// matched); only without one, the single row holds the total count.
+	if len(groupBy) > 0 {
 		for _, rr := range result.Groups {
 			fields := []string{}
 			for _, f := range rr.Fields {
